@@ -14,13 +14,24 @@ CLAIMED = {
          'vasprintf stub; allocation does not fail; values are non-NaN; operation kinds and resize shapes are enumerated, not symbolic.',
     design='DESIGN.md section 4 / C15'),
  'C01': dict(
-    technique='symbolic interpretation of the real fill_t8/u8/t16/u16/ue14 and _vnacal_layout (clang-14 IR -> vf/irsym.py) with z3 deciding, cell by cell, that the linear system vnacal_apply builds is the documented M/S matrix equation',
-    text='Exact algebraic proof for the APPLY side only: for error-term types T8, U8, TE10, UE10, T16, U16, UE14 and square dimensions 1..2 (3 in thorough), with every error term and every measured cell a free complex symbol, '
-         'the (A, B) matrices the real fill_* functions build equal the documented equation of vnacal_layout.h (T: A = Ts - M\' Tx, B = M\' Tm - Ti; U: A = Ux M\' + Us, B = Um M\' + Ui; UE14 per column; M\' = M - El off-diagonal), '
-         'and _vnacal_layout places the blocks as documented for all 9 type codes and dims 1..4; with C19 (S = A^-1 B / B A^-1 exact) this shows apply solves the documented equation for S.  The calibrate side '
-         '(cell mapping, term expansion, assembly, solve) is NOT covered by this check.',
-    note='Trusted: clang front end, vf/irsym.py, z3, the oracle written from the header comments. Outside: everything before the error terms exist (vnacal_new_add_*, build_equation_terms, solve), E12 and the 1x2/2x1 apply cases, rounding, dimension 4.',
-    design='DESIGN.md section 4 / C01 (C01.c, C01.f)', cmd='python3-vt ./check C01'),
+    technique='whole-flow symbolic execution of the real code (clang-14 IR of the whole library -> vf/irx.py: concrete control flow, checked heap, every measured value / reference value / error term a free complex symbol) with z3 deciding, row by row, that the linear systems vnacal_new_solve assembles are the documented M/S residual equations and that vnacal_apply builds the documented equation from the stored terms; counterexamples replayed as generated C programs against a clang ASan/UBSan build',
+    text='Bounded proof (exact algebra, z3) on the real code.  CALIBRATE side: for every configuration of props/calcfg.py - all 8 error-term types x every accepted shape up to 2 ports (3 in thorough; a few 3-port ones in quick) x the '
+         'determining standard set entered through single / double reflect, through, line, mapped matrix (with / without port map), m and a/b form, full and abbreviated matrices, swapped port order, other orders, other determining sets, '
+         'predefined and user parameters - with every measured value, reference (a) value and parameter value a free complex symbol, the coefficient matrix and right-hand side that the real vnacal_new_add_* .. vnacal_new_solve hand to the '
+         'linear solver consist exactly of the documented residual cells (soundness and completeness), and the stored error terms are the solver result with the unity term inserted, leakage terms equal to the documented averages and the E12 terms '
+         'equal to the documented conversion.  APPLY side: fill_t8/u8/t16/u16/ue14 build exactly A = Ts - M\' Tx, B = M\' Tm - Ti (T), A = Ux M\' + Us, B = Um M\' + Ui (U), per-column UE14, for all terms free; _vnacal_layout places the blocks as documented.  '
+         'With C19 (the solvers are exact) calibrate-then-apply recovers S over the complex field; an exact rational end-to-end run per configuration witnesses determinacy.  Rounding and conditioning are outside.',
+    note='Trusted: clang front end, vf/irparse.py / irsym.py / irx.py (interpreter, libc model), z3, the oracles written from vnacal_new(3) and vnacal_layout.h.  Linear solvers are hooked on the calibrate side (C19 covers LU; QR not covered).  '
+         'Outside: TRL / unknown parameters, measurement-error weighting, several frequencies, interpolation in apply, > 3 ports, measure-zero sets where free values coincide (listed per path).',
+    design='DESIGN.md section 3 / C01', cmd='python3-vt ./check C01', engine='irx+z3'),
+ 'C17': dict(
+    technique='two whole-flow symbolic executions of the real code (clang-14 IR -> vf/irx.py) of two descriptions of the same calibration with shared symbols; z3 decides that both hand the same equations to the solver and store the same error terms; counterexamples replayed as generated C programs (both descriptions calibrated natively, corrected S compared)',
+    text='Bounded proof (exact algebra, z3) on the real vnacal_new_add_* .. vnacal_new_solve: for all 8 types x accepted shapes up to 2 ports (3 in thorough; some 3-port in quick), the base description and each re-description of the same '
+         'physical information - line for through, mapped matrix with / without port map, ports listed in the other order, abbreviated measurement matrix, reversed / rotated order of standards, a/b form with b = M a (a symbolic, scaled by a free '
+         'complex factor, or constant), the same calibration built after an unrelated one on the same vnacal_t, two frequencies solved together vs one at a time - give, in every linear system, the same multiset of equations (up to sign) and '
+         'the same stored error terms, with every measured value and parameter a free complex symbol.  Same equations + same solver => same applied S (apply side: C01).',
+    note='Trusted: as C01 plus the re-description generators of props/calcfg.py.  Outside: renumbering of the VNA ports, E12 vs UE14 on the apply side, vector / unknown parameters, rounding.',
+    design='DESIGN.md section 3 / C17', cmd='python3-vt ./check C17', engine='irx+z3'),
  'C03': dict(
     technique='CBMC 6.11 memory-safety / UB / leak instrumentation (bounds, pointer validity, use-after-free, double free, overflow, shifts, library assert(), unwinding assertions, --memory-leak-check) on the bounded API-history harnesses of the object families (clang-14 IR -> ll2c -> CBMC, and CBMC native for vnaproperty)',
     text='Bounded proof with CBMC: along every bounded API history of the family harnesses - vnadata (plans of 1..5 operations with symbolic indices -1..n+1), vnaproperty (API steps from 12 trees, containers '
@@ -126,11 +137,18 @@ CLAIMED = {
     design='DESIGN.md section 4 / C13'),
 }
 
+NA_REASONS = {
+ 'C02': 'the claim is convergence of a Levenberg-Marquardt / TRL iteration in IEEE arithmetic to the true values within tolerances: no installed solver decides convergence of a floating-point iteration; see DESIGN.md section 6',
+ 'C06': 'save/load equivalence is a statement about printf("%g") / strtod digits and about stdio-driven writers and parsers of several thousand lines; see DESIGN.md section 6',
+ 'C08': 'the two-spelling differential on the Touchstone loader gives no CBMC verdict within 900 s even for one differing byte; see DESIGN.md section 6',
+ 'C14': 'most of the property is behaviour of the emitter and parser of libyaml, a binary without source in this image (not encodable); see DESIGN.md section 6',
+ 'C17': 'not built',
+}
 NOT_APPLICABLE = {}
 for i in range(1, 21):
     pid = 'C%02d' % i
     if pid not in CLAIMED:
-        NOT_APPLICABLE[pid] = 'no check registered yet in this revision (work in progress; see DESIGN.md section 4 for the planned solver obligations)'
+        NOT_APPLICABLE[pid] = NA_REASONS[pid]
 
 m = {
  'version': 1,
@@ -138,13 +156,15 @@ m = {
  'hooks': {'guard': 'LIBVNA_VERIF', 'enable': 'none needed: static functions are reached by #include of the real .c file from the harness TU; stubs are supplied at link level',
            'baseline_off_cmd': 'make -C /repo check', 'source_commits': [], 'add_only': True},
  'engines': [
-    {'name': 'll2c+cbmc', 'path': 'vf/ll2c.py', 'serves_properties': [p for p in sorted(CLAIMED) if p not in ('C13', 'C01', 'C04', 'C19')], 'kind_free_text': 'clang-14 -O0 IR -> C translator feeding CBMC 6.11 (bounded symbolic execution, SAT)'},
-    {'name': 'irsym+z3', 'path': 'vf/irsym.py', 'serves_properties': ['C01', 'C04', 'C19'], 'kind_free_text': 'LLVM-IR symbolic interpreter with exact rational-function doubles; z3 nonlinear real arithmetic decides the relation'},
+    {'name': 'll2c+cbmc', 'path': 'vf/ll2c.py', 'serves_properties': [p for p in sorted(CLAIMED) if p not in ('C13', 'C04', 'C19') and not CLAIMED[p].get('engine')], 'kind_free_text': 'clang-14 -O0 IR -> C translator feeding CBMC 6.11 (bounded symbolic execution, SAT)'},
+    {'name': 'irx+z3', 'path': 'vf/irx.py', 'serves_properties': [p for p in sorted(CLAIMED) if CLAIMED[p].get('engine') == 'irx+z3'],
+     'kind_free_text': 'whole-flow symbolic interpreter of the LLVM IR of the entire library (concrete control flow, checked heap and stack objects, libc / stdio model, doubles as exact rational functions of z3 reals, forks on order comparisons, generic-point handling of equality tests); z3 decides the identities'},
+    {'name': 'irsym+z3', 'path': 'vf/irsym.py', 'serves_properties': ['C04', 'C19'], 'kind_free_text': 'LLVM-IR symbolic interpreter with exact rational-function doubles; z3 nonlinear real arithmetic decides the relation'},
     {'name': 'cbmc-native', 'path': 'vf/core.py', 'serves_properties': ['C13'], 'kind_free_text': 'CBMC 6.11 C front end directly on the real .c files (complex-free units)'},
  ],
  'checks': [
     {'property_id': pid, 'quick_cmd': '%s --tier quick' % c.get('cmd', './check %s' % pid), 'thorough_cmd': '%s --tier thorough' % c.get('cmd', './check %s' % pid),
-     'evidence_file': 'evidence/%s.json' % pid, 'replay_cmd_template': './check --replay {path}', 'engine': 'irsym+z3' if pid in ('C01', 'C04', 'C19') else ('ll2c+cbmc' if pid not in ('C13',) else 'cbmc-native'),
+     'evidence_file': 'evidence/%s.json' % pid, 'replay_cmd_template': './check --replay {path}', 'engine': c.get('engine') or ('irsym+z3' if pid in ('C04', 'C19') else ('ll2c+cbmc' if pid not in ('C13',) else 'cbmc-native')),
      'level_claimed': {'category': c.get('category', 'proof'), 'text': c['text'], 'design_ref': c['design']}, 'level_note': c['note'], 'technique': c['technique']}
     for pid, c in sorted(CLAIMED.items())],
  'notes': 'All checks regenerate their encoding from /repo\'s working tree on every run. Exit 0 = held within the stated bounds; exit 1 + VIOLATION line = '
